@@ -16,6 +16,7 @@ META = {
     "pattern, the event's lookup key comes from the same builder with the maximal disambiguator, the upper index found for the event is installed before every seek and "
     "every read of the shared lot list is bounded by it; every to-date cut (iterator, fraction numbering, yearly sums, average price, balances) stops strictly after the "
     "to-date on the entry's own calendar date, and the containers numbered up to the to-date are per copy; the engine consumes both inputs through time-sorted iterators.",
+    "restated": "lots keep the exact instant of their row through the parser's crypto-fee split (C11.e)",
     "not_decided": "the property itself, a relation between two whole runs: these clauses remove the known ways a later transaction can leak backwards (peeking window, "
     "inclusive/exclusive slip, unsorted input, shared window-dependent state); they do not prove non-interference of the matcher state (e.g. heap duplicates).",
     "assumptions": ["prezzemolo AVLTree.find_max_value_less_than returns the greatest key <= argument", "list.sort is stable"],
